@@ -244,6 +244,15 @@ def scn_time_coordinate(c):
     add_var(ds, 'stamp', ('time',), np.NDArray((nt,), sym_array(c, 'sv', (1,), 'V').fn, np.DATETIME), {}, {'units': 'metres'})
     tc = expect_ok(c, 'time_coordinate is found', lambda: attr(it, conv, 'time_coordinate'))
     c.check("time coordinate = first variable with decoded datetime64 values and '... since ...' units", tc.name == 'time')
+    # whatever its shape: a snapshot (dataset.isel(time=0)) keeps a scalar time coordinate; bounds-like 2-d times qualify as well
+    for shape_name, dims in (('scalar (a snapshot)', ()), ('two-dimensional', ('time', 'nv'))):
+        it2 = new_interp()
+        ds2, conv2 = inputs.make_convention(it2, c, 'CFGrid1D', extra=[('temp', ('lat', 'lon'))])
+        shp = tuple({'time': sym_size(c, 'nt2', 1), 'nv': 2}[d] for d in dims)
+        add_var(ds2, 'time', dims, np.NDArray(shp, (lambda i, a=sym_array(c, 'tv2', (1,), 'V'): a.fn((0,))), np.DATETIME),
+                {}, {'units': 'days since 1990-01-01T00:00:00+10:00'}, coord=True)
+        tc2 = expect_ok(c, f'time_coordinate is found when the time variable is {shape_name}', lambda: attr(it2, conv2, 'time_coordinate'))
+        c.check(f'a {shape_name} time variable is the time coordinate (its units are then fixed on saving)', tc2.name == 'time')
 
 
 NATIVE = {'format_time_units': 'format_units', '': 'save_roundtrip'}
